@@ -243,3 +243,9 @@ pub use d_engine_core::storage_engine_test;
 #[cfg(test)]
 #[doc(hidden)]
 pub(crate) mod test_utils;
+
+// Verification hook (add-only, inert unless built with `--cfg d_engine_verif`): replay tests that
+// reproduce recorded findings against the real code live outside the repository, under /verif/replay.
+#[cfg(all(test, d_engine_verif))]
+#[path = "/verif/replay/server_replays.rs"]
+mod verif_replays;
